@@ -59,7 +59,8 @@ type c17Scen struct {
 }
 
 var c17Filters = []string{"f/a", "f/a", "f/b", "f/+", "f/#", "#", "$f/#"}
-var c17Topics = []string{"f/a", "f/a", "f/a", "f/b", "x", "$f/x"}
+// "f" is the parent level of the filter "f/#" (which matches it, MQTT 4.7.1.2) but not of "f/+"
+var c17Topics = []string{"f/a", "f/a", "f/a", "f/b", "x", "$f/x", "f", "f"}
 
 const c17ClientsPerNode = 2
 
